@@ -43,7 +43,7 @@ package engine
 
 //@ iface Matcher.Match(got, d, r) (d1, ok)
 //@   requires d != nil
-//@   ensures [C01,C04,C05] decides-instance: ok == MatchOK(self, got, dmap(d), r)
+//@   ensures [C01,C04,C05,C06] decides-instance: ok == MatchOK(self, got, dmap(d), r)
 //@   ensures [C01,C02,C03,C04] binds: ok ==> dmap(d1) == MatchD(self, got, dmap(d), r)
 //@   ensures [C02] never-rebinds: ok ==> keepsBindings(dmap(d), dmap(d1))
 //@   ensures d1 != nil
